@@ -285,7 +285,7 @@ def run(facts, rep, tier, ctx):
     # R10.4 / R10.7 shared with C09
     c09.listing_rules(facts, rep, ws, rule="R10.4")
     c09.relative_join_rules(facts, rep, ws, rule="R10.9")
-    c09.table_u(facts, rep, ws, rule="R10.7", only=("remove_dir",))
+    c09.table_u(facts, rep, ws, rule="R10.7", only=("remove_dir", "append_file"))
     # R10.8 removing a subtree goes through the path layer's remove_dir_all: children must be dispatched by their own type
     # (remove_file on a lower-only directory would hide it with one marker and leave its content to resurface), the
     # directory itself goes last
@@ -310,7 +310,7 @@ def run(facts, rep, tier, ctx):
         k = marker_rules(facts, A, wa)
         k += c09.listing_rules(facts, A, wa, rule="R10.4")
         k += c09.relative_join_rules(facts, A, wa, rule="R10.9")
-        k += c09.table_u(facts, A, wa, rule="R10.7", only=("remove_dir",))
+        k += c09.table_u(facts, A, wa, rule="R10.7", only=("remove_dir", "append_file"))
         rep.floor("async overlay marker obligations", k, 30)
     # R10.4e a failure to read the markers is a failure of the listing: no Err edge in the overlay's read_dir ends in a
     # success return (C20's Err-edge rule, restricted to that function) — "could not read the marker directory" must not
